@@ -1338,11 +1338,5 @@ def r01_8(chk: Check):
 
 
 def rules(chk: Check) -> None:
-    r01_7(chk)
-    r01_8(chk)
-    r01_1(chk)
-    r01_2(chk)
-    r01_3(chk)
-    r01_4(chk)
-    r01_5(chk)
-    r01_6(chk)
+    for grp in (r01_7, r01_8, r01_1, r01_2, r01_3, r01_4, r01_5, r01_6):
+        chk.stage(grp, chk)
